@@ -39,6 +39,8 @@
 #include <unistd.h>
 #include <algorithm>
 #include <atomic>
+#include <chrono>
+#include <csignal>
 #include <condition_variable>
 #include <fstream>
 #include <functional>
@@ -235,10 +237,12 @@ struct IxHarness : vh::Harness {
 
   // wait until the prefetch thread is parked for good: inside its condition wait AND the wait predicate false
   // (a producer that has been notified is still counted in nwait_producer_ until it re-acquires the mutex);
-  // it then stays parked until this thread acts
+  // it then stays parked until this thread acts.  A producer that has ended with an exception never parks
+  // again (the next call rethrows it), and nothing may wait for ever: both end the wait.
   void quiesce() {
     auto *t = static_cast<ThreadedInputSplit *>(wrapped);
     auto &it = t->iter_;
+    auto deadline = std::chrono::steady_clock::now() + std::chrono::seconds(2);
     for (;;) {
       {
         std::lock_guard<std::mutex> lk(it.mutex_);
@@ -246,6 +250,11 @@ struct IxHarness : vh::Harness {
                          (!it.produce_end_.load() && (it.queue_.size() < it.max_capacity_ || it.free_cells_.size() != 0));
         if (it.nwait_producer_ != 0 && !would_run) return;
       }
+      {
+        std::lock_guard<std::mutex> lk(it.mutex_exception_);
+        if (it.iter_exception_) return;
+      }
+      if (std::chrono::steady_clock::now() > deadline) return;
       std::this_thread::yield();
     }
   }
@@ -253,7 +262,10 @@ struct IxHarness : vh::Harness {
   void put_files() {
     fs.Put("/ix/data.rec", file);
     std::string idx;
-    for (size_t i = 0; i < idx_order.size(); ++i) idx += std::to_string(i) + "\t" + std::to_string(idx_order[i]) + "\n";
+    // record keys: arbitrary numbers, monotone neither with the offsets nor with the line order (the code must sort
+    // by offset, the key column is ignored)
+    for (size_t i = 0; i < idx_order.size(); ++i)
+      idx += std::to_string((idx_order[i] * 2654435761ULL + 40503ULL * i + 17) % 1000003ULL) + "\t" + std::to_string(idx_order[i]) + "\n";
     fs.Put("/ix/data.idx", idx);
   }
 
@@ -325,7 +337,21 @@ struct IxHarness : vh::Harness {
     return !sentinel_fixed && shuffle && bare->index_end_ != kPoison && bare->index_end_ > recs.size();
   }
 
+  // watchdog: an operation of the code under test that does not return (endless loop, wait on a dead thread)
+  // must end the run with the failing history on disk (ops are flushed before exec), not hang the check
+  static void on_alarm(int) {
+    static const char msg[] = "h_indexed: operation did not return within 20 s (watchdog)\n";
+    ssize_t r = write(2, msg, sizeof msg - 1);
+    (void)r;
+    _exit(86);
+  }
   std::string exec(const std::vector<std::string> &w) override {
+    alarm(20);
+    std::string r = exec1(w);
+    alarm(0);
+    return r;
+  }
+  std::string exec1(const std::vector<std::string> &w) {
     if (w.empty()) return "bad-op";
     const std::string &op = w[0];
     auto num = [&](size_t i) { return static_cast<size_t>(strtoull(w[i].c_str(), nullptr, 10)); };
@@ -354,6 +380,12 @@ struct IxHarness : vh::Harness {
     }
     if ((op == "new" || op == "wrap" || op == "create") && w.size() == 6) {
       kill();
+      {
+        // the index must list exactly the record starts (a shrunk / hand-edited replay may not): no verdict otherwise
+        std::vector<size_t> so = idx_order;
+        std::sort(so.begin(), so.end());
+        if (so != starts || recs.empty()) { stale = true; return "bad-index"; }
+      }
       size_t k = num(1), n = num(2);
       batch = num(3);
       shuffle = w[4] == "1";
@@ -673,6 +705,7 @@ int main(int argc, char **argv) {
   IxHarness H;
   R.h = &H;
   H.out_dir = R.out_dir;
+  signal(SIGALRM, IxHarness::on_alarm);
   R.flush_ops = true;  // on a repaired tree nothing is sandboxed: a sanitizer abort must leave the failing history
   H.probe();
   const size_t W = InputSplitBase::kBufferSize;
